@@ -48,6 +48,21 @@ class Mem:
     def check(self, st, rw, ptr, size, ins, what=''):
         ok, r = self.in_bounds(st, ptr, size)
         kind = 'MEM-' + rw
+        import os
+        if not ok and os.environ.get('ABSINT_OBDBG') and ins.fn.name == os.environ['ABSINT_OBDBG'] and isinstance(ptr, Ptr) and not getattr(self, '_dbgdone', False):
+            self._dbgdone = True
+            syms = set(ptr.off.t)
+            S = st.store
+            print('   [obdbg] %s off=%r size=%r len=%r' % (ins.loc(), ptr.off, size, r.length if r else None))
+            for _ in range(2):
+                for e in S.rel:
+                    if any(z in syms for z in e.t):
+                        syms.update(e.t)
+            for e in S.rel:
+                if any(z in syms for z in e.t):
+                    print('        %r >= 0' % e)
+            for z in sorted(syms):
+                print('        %s in %r origin=%s' % (z, S.ivl[z], st.syminfo[z].origin if z in st.syminfo else '?'))
         self.ops.oblige(st, kind, ok, ins, what or self.describe(st, ptr, size), self.describe(st, ptr, size))
         if ok and rw == 'W':
             self.ops.oblige(st, 'REGION-W', not r.readonly, ins, 'store into read-only region %s' % r.name,
